@@ -151,6 +151,31 @@ Proof.
   - intros [_ H]. specialize (H 0). vm_compute in H. apply H; [repeat constructor|reflexivity].
 Qed.
 
+
+(* which frequency setter refuses which VALUE (vnadata.h, vnadata_add_frequency.c): vnadata_set_frequency
+   and vnadata_set_frequency_vector store any value - negative, zero, unordered, repeated -, only
+   vnadata_add_frequency refuses a negative frequency *)
+Theorem frequency_setters_accept_any_value d :
+  Inv d ->
+  (forall i x, in_range i (freqs V d) = true ->
+     snd (stepf d (OSetFreq V i x)) = ok V /\ fv V (fst (stepf d (OSetFreq V i x))) (Z.to_nat i) = x) /\
+  (forall l, snd (stepf d (OSetFreqVec V l)) = ok V /\
+             forall k, k < freqs V d -> fv V (fst (stepf d (OSetFreqVec V l))) k = nth k l 0%Z) /\
+  (forall x, snd (stepf d (OAddFreq V x)) = fail V <-> (x < 0)%Z).
+Proof.
+  intros (I1 & I2 & I3 & _). split; [|split].
+  - intros i x H. cbn [step]. unfold set_frequency. rewrite H. cbn [negb].
+    apply in_range_spec in H.
+    destruct (Nat.ltb_spec (Z.to_nat i) (f_alloc V d)) as [_|G]; [|lia].
+    cbn. unfold upd1. rewrite Nat.eqb_refl. split; reflexivity.
+  - intros l. cbn [step]. unfold set_frequency_vector.
+    destruct (Nat.leb_spec (freqs V d) (f_alloc V d)) as [_|G]; [|lia].
+    cbn -[Nat.ltb]. split; [reflexivity|]. intros k Hk. destruct (Nat.ltb_spec k (freqs V d)); [reflexivity|lia].
+  - intros x. cbn [step]. unfold add_frequency. destruct (Z.ltb_spec x 0) as [H|H].
+    + cbn. split; [intros _; exact H|reflexivity].
+    + split; [|lia]. match goal with |- context [if ?b then _ else _] => destruct b end; cbn; intros E; discriminate E.
+Qed.
+
 (* vnadata_add_frequency presents the new frequency row with its initial values: every cell 0 and,
    in per-frequency mode, every impedance 50 ohm (the clause of the property about newly exposed
    cells, for the operation that grows the frequency dimension by one) *)
